@@ -69,8 +69,8 @@ def xiseven_odd(number, odd=False):
     return v != 0 if odd else v == 0
 
 
-FUNCTIONS['ISODD'] = wrap_ranges_func(functools.partial(xiseven_odd, odd=True))
-FUNCTIONS['ISEVEN'] = wrap_ranges_func(xiseven_odd)
+FUNCTIONS['ISODD'] = wrap_func(functools.partial(xiseven_odd, odd=True))
+FUNCTIONS['ISEVEN'] = wrap_func(xiseven_odd)
 FUNCTIONS['ISERROR'] = wrap_ranges_func(iserror)
 FUNCTIONS['ISNUMBER'] = wrap_ranges_func(functools.partial(
     iserror, array=FalseArray, check=lambda x: isinstance(
